@@ -54,15 +54,26 @@ def _scen_paths(prefixes):
     return out
 
 
+def _mine(results, pid):
+    out = []
+    for r in results:
+        for x in r.get("findings", []):
+            if x[0] == pid:
+                out.append(((x[0], x[1], r["base"], x[2] if len(x) > 2 else None), r))
+    # unknown classes first
+    out.sort(key=lambda fr: fr[0][3] is not None)
+    return out
+
+
 def _mk_finding(pid, f, r):
-    """f = (pid, msg, base); r = result dict of the run."""
+    """f = (pid, msg, base, cls); r = result dict of the run."""
     base = r["base"]
     def rd(ext, lim=400):
         try:
             return open(base + ext).read().splitlines()[:lim]
         except OSError:
             return []
-    return {"message": f[1], "cls": None,
+    return {"message": f[1], "cls": f[3] if len(f) > 3 else None,
             "replay": {"program": open(r["prog"]).read(), "schedule": rd(".sched", 5000), "policy": r["policy"],
                        "impl_trace": rd(".impl", 600), "model_trace": rd(".model", 600)}}
 
@@ -99,13 +110,13 @@ def run(pid, cfg, tier, seed, workdir, already_broken):
     if s["failed"]:
         r = s["failed"][0]
         broken.append("harness or model run failed (%s) on %s: %s" % (r["status"], os.path.basename(r["base"]), r.get("stderr", "")[-200:]))
-    mine = [(f, r) for r in results for f in [(x[0], x[1], r["base"]) for x in r.get("findings", [])] if f[0] == pid]
+    mine = _mine(results, pid)
     harness_err = [(f, r) for r in results for f in [(x[0], x[1], r["base"]) for x in r.get("findings", [])] if f[0] == "HARNESS"]
     if harness_err:
         broken.append("harness error: " + harness_err[0][0][1][:300])
     search_summary = "%d runs (%d scenario sweeps + random), %d steps" % (s["runs"], s["runs"] - len(rs), s["steps"])
     # intensified search when something no longer checks and no failing input is known yet
-    if (broken or already_broken) and not mine:
+    if (broken or already_broken) and not [m for m in mine if m[0][3] is None]:
         budget = 120 if tier == "quick" else 900
         t1 = time.time()
         extra = []
@@ -115,15 +126,25 @@ def run(pid, cfg, tier, seed, workdir, already_broken):
             extra += sweep.sweep(sp, os.path.join(workdir, "sweep2"), maxp=60, two_level=True)
             if cfg.get("freeze"):
                 extra += sweep.freeze_sweep(sp, os.path.join(workdir, "freeze2"), maxp=40, maxq=70)
-            mine = [(f, r) for r in extra for f in [(x[0], x[1], r["base"]) for x in r.get("findings", [])] if f[0] == pid]
+            mine = [m for m in _mine(extra, pid) if m[0][3] is None]
             if mine:
                 break
         if not mine and time.time() - t1 < budget:
             rs2, _ = corr.run_batch(cfg.get("families", []), 300, seed + 17, os.path.join(workdir, "rand2"))
             extra += rs2
-            mine = [(f, r) for r in extra for f in [(x[0], x[1], r["base"]) for x in r.get("findings", [])] if f[0] == pid]
+            mine = [m for m in _mine(extra, pid) if m[0][3] is None]
         search_summary += "; intensified search: %d more runs in %.0fs, %s" % (len(extra), time.time() - t1, "failing input found" if mine else "no failing input found")
-    findings = [_mk_finding(pid, f, r) for f, r in mine[:3]]
+    # one finding per class (unknown class = each distinct message counts)
+    seen_cls = set()
+    findings = []
+    for f, r in mine:
+        key = f[3] or ("msg:" + f[1][:60])
+        if key in seen_cls:
+            continue
+        seen_cls.add(key)
+        findings.append(_mk_finding(pid, f, r))
+        if len(findings) >= 4:
+            break
     samples = []
     for r in results[:2] + results[-1:]:
         samples.append({"program": open(r["prog"]).read() if os.path.exists(r["prog"]) else os.path.basename(r["prog"]),
